@@ -158,6 +158,17 @@ def r1(ctx, R):
             R.bad(nr, rs[0], "a cells or space of that name in a sub is not refused")
         if any(isinstance(x, ast.Break) for x in ast.walk(lps[0])):
             R.bad(nr, lps[0], "the clash test stops at the first sub space")
+        # the space itself is among the spaces tested (UserSpaceImpl.set_attr routes a name that is both a cells
+        # of the space and a model-level reference here)
+        itc = lps[0].iter
+        sk = kw(itc, "skip_self") or (itc.args[2] if len(itc.args) > 2 else None)
+        own = [r_ for r_ in q.raises(nr) if any(t in ("name in space.namespace", "name in space.cells") and l == "T"
+                                                 for t, l in q.guards_of(nr, r_))]
+        if sk is not None and not (isinstance(sk, ast.Constant) and not sk.value) and not own:
+            R.bad(nr, itc, "the clash test skips the space itself: a name that is a cells of the space and a model-level "
+                           "reference becomes an own reference next to the cells")
+        if [norm(a) for a in itc.args[:2]] != ["space", "name"]:
+            R.bad(nr, itc, "the clash test does not look for the new name below the edited space")
     # ModelImpl.set_attr
     ms = ctx.func("ModelImpl.set_attr")
     R.inst("ModelImpl.set_attr refuses the name of a space")
